@@ -57,6 +57,115 @@ Proof.
   destruct host as [|b r]; [reflexivity|]. rewrite byte_eqb_neq; [reflexivity|]. intros ->. apply (Hb r). reflexivity.
 Qed.
 
+(* ---------- the complete characterisation: EVERY address string falls in exactly one of three shapes ---------- *)
+Lemma before_first_rbr_some s : forall h, before_first_rbr s = Some h -> exists r, s = h ++ rbr :: r /\ no_rbr h.
+Proof.
+  induction s as [|b t IH]; intros h H; cbn [before_first_rbr] in H; [discriminate|].
+  destruct (Byte.eqb b rbr) eqn:E.
+  - apply Byte.byte_dec_bl in E. subst b. injection H as <-. exists t. split; [reflexivity|]. intros [].
+  - destruct (before_first_rbr t) as [q|] eqn:Eq; [|discriminate]. injection H as <-.
+    destruct (IH q eq_refl) as [r [-> Hq]]. exists r. split; [reflexivity|].
+    intros [Hb|Hin]; [|exact (Hq Hin)]. subst b. rewrite byte_eqb_refl in E. discriminate.
+Qed.
+
+Lemma before_first_rbr_none s : before_first_rbr s = None -> no_rbr s.
+Proof.
+  induction s as [|b t IH]; intros H; [intros []|]. cbn [before_first_rbr] in H.
+  destruct (Byte.eqb b rbr) eqn:E; [discriminate|].
+  destruct (before_first_rbr t) as [q|] eqn:Eq; [discriminate|].
+  intros [Hb|Hin]; [|exact (IH eq_refl Hin)]. subst b. rewrite byte_eqb_refl in E. discriminate.
+Qed.
+
+Lemma before_last_colon_some s : forall h, before_last_colon s = Some h -> exists p, s = h ++ colon :: p /\ no_colon p.
+Proof.
+  induction s as [|b t IH]; intros h H; cbn [before_last_colon] in H; [discriminate|].
+  destruct (before_last_colon t) as [q|] eqn:Eq.
+  - injection H as <-. destruct (IH q eq_refl) as [p [-> Hp]]. exists p. split; [reflexivity|exact Hp].
+  - destruct (Byte.eqb b colon) eqn:E; [|discriminate]. injection H as <-.
+    apply Byte.byte_dec_bl in E. subst b. exists t. split; [reflexivity|].
+    clear IH. revert Eq. induction t as [|c u IHu]; intros Eq; [intros []|]. cbn [before_last_colon] in Eq.
+    destruct (before_last_colon u) as [q|] eqn:Eu; [discriminate|].
+    destruct (Byte.eqb c colon) eqn:Ec; [discriminate|].
+    intros [Hc|Hin]; [|exact (IHu eq_refl Hin)]. subst c. rewrite byte_eqb_refl in Ec. discriminate.
+Qed.
+
+Lemma before_last_colon_none_inv s : before_last_colon s = None -> no_colon s.
+Proof.
+  induction s as [|b t IH]; intros H; [intros []|]. cbn [before_last_colon] in H.
+  destruct (before_last_colon t) as [q|] eqn:Eq; [discriminate|].
+  destruct (Byte.eqb b colon) eqn:E; [discriminate|].
+  intros [Hb|Hin]; [|exact (IH eq_refl Hin)]. subst b. rewrite byte_eqb_refl in E. discriminate.
+Qed.
+
+(* "has the bracketed shape": starts with '[' and a ']' follows somewhere *)
+Definition bracketed (addr : list byte) : Prop := exists v6 r, addr = lbr :: v6 ++ rbr :: r.
+
+Lemma bracketed_no_rbr t : no_rbr t -> ~ bracketed (lbr :: t).
+Proof.
+  intros Hn [v6 [r E]]. injection E as ->. apply Hn. apply in_or_app. right. left. reflexivity.
+Qed.
+
+Theorem domain_complete addr :
+  (exists v6 r, addr = lbr :: v6 ++ rbr :: r /\ no_rbr v6 /\ domain_of addr = v6)
+  \/ (~ bracketed addr /\
+      ((exists h p, addr = h ++ colon :: p /\ no_colon p /\ domain_of addr = h)
+       \/ (no_colon addr /\ domain_of addr = addr))).
+Proof.
+  assert (Hplain : forall a d, d = match before_last_colon a with Some h => h | None => a end ->
+            (exists h p, a = h ++ colon :: p /\ no_colon p /\ d = h) \/ (no_colon a /\ d = a)).
+  { intros a d ->. destruct (before_last_colon a) as [h|] eqn:E.
+    - left. destruct (before_last_colon_some a h E) as [p [-> Hp]]. exists h, p. repeat split; [exact Hp].
+    - right. split; [exact (before_last_colon_none_inv a E)|reflexivity]. }
+  destruct addr as [|b t].
+  - right. split; [intros [v6 [r E]]; discriminate|]. right. split; [intros []|reflexivity].
+  - unfold domain_of. destruct (Byte.eqb b lbr) eqn:Eb.
+    + apply Byte.byte_dec_bl in Eb. subst b. destruct (before_first_rbr t) as [h|] eqn:Er.
+      * left. destruct (before_first_rbr_some t h Er) as [r [-> Hh]]. exists h, r. repeat split; exact Hh.
+      * right. split; [exact (bracketed_no_rbr t (before_first_rbr_none t Er))|]. apply Hplain. reflexivity.
+    + right. split.
+      * intros [v6 [r E]]. injection E as -> _. rewrite byte_eqb_refl in Eb. discriminate.
+      * apply Hplain. reflexivity.
+Qed.
+
+(* what str slicing guarantees by type in the code: the name is a contiguous part of the address, for EVERY address *)
+Theorem domain_is_substring addr : exists pre post, addr = pre ++ domain_of addr ++ post.
+Proof.
+  destruct (domain_complete addr) as [[v6 [r [E [_ D]]]]|[_ [[h [p [E [_ D]]]]|[_ D]]]]; rewrite D.
+  - exists [lbr], (rbr :: r). exact E.
+  - exists [], (colon :: p). exact E.
+  - exists [], []. cbn [app]. rewrite app_nil_r. reflexivity.
+Qed.
+
+(* an opening bracket that is never closed is not an IPv6 literal: the text before the last colon, '[' included *)
+Theorem domain_unclosed_bracket h port :
+  no_rbr (h ++ colon :: port) -> no_colon port -> domain_of (lbr :: h ++ colon :: port) = lbr :: h.
+Proof.
+  intros Hr Hp. unfold domain_of. rewrite byte_eqb_refl.
+  destruct (before_first_rbr (h ++ colon :: port)) as [q|] eqn:E.
+  - destruct (before_first_rbr_some _ q E) as [r [E' _]]. exfalso. apply Hr. rewrite E'. apply in_or_app. right. left. reflexivity.
+  - change (lbr :: h ++ colon :: port) with ((lbr :: h) ++ colon :: port). rewrite (before_last_colon_app (lbr :: h) port Hp). reflexivity.
+Qed.
+
+(* the name handed to the TLS library never keeps the port: no result ends in ":" ++ colon-free text cut from the end of the address,
+   unless the address is bracketed (where the name is the bracket's content) *)
+Theorem domain_drops_port addr h p :
+  ~ bracketed addr -> addr = h ++ colon :: p -> no_colon p -> domain_of addr = h.
+Proof.
+  intros Hb -> Hp. destruct (domain_complete (h ++ colon :: p)) as [[v6 [r [E _]]]|[_ [[h' [p' [E [Hp' D]]]]|[Hn _]]]].
+  - exfalso. apply Hb. exists v6, r. exact E.
+  - rewrite D. assert (Some h = Some h') as Hs.
+    { rewrite <- (before_last_colon_app h p Hp). rewrite E. apply before_last_colon_app. exact Hp'. }
+    injection Hs as ->. reflexivity.
+  - exfalso. apply Hn. apply in_or_app. right. left. reflexivity.
+Qed.
+
+Lemma domain_shapes :
+  domain_of [x5b;x3a;x3a;x31;x5d;x3a;x33;x38;x36;x38] = [x3a;x3a;x31] /\
+  domain_of [x5b;x61;x62;x3a;x33;x38] = [x5b;x61;x62] /\
+  domain_of [x3a;x3a;x31;x3a;x33;x38] = [x3a;x3a;x31] /\
+  domain_of [x61;x62] = [x61;x62].
+Proof. repeat split. Qed.
+
 (* the pre-repair name never equals the host *)
 Theorem domain_legacy_refuted host port : domain_legacy (host ++ colon :: port) <> host.
 Proof.
